@@ -12,6 +12,8 @@ from ..harness import Session
 from collections import deque
 
 KEYS = [(1, 3, 1, 2), (1, 3, 1, 3), (1, 4, 1, 2), (2, 3, 1, 2), (1, 255, 3, 13)]  # (node, child, command, type)
+# an internal command that may carry any child id (id response) and a set command with the same node, child and type number
+TWINS = [(1, 3, 3, 4), (1, 3, 1, 4)]
 
 
 def run_plan(version: str, cmds: list, wakes: list, plan: list, fault: str = "failed"):
@@ -146,8 +148,12 @@ def run(ctx: core.Ctx) -> core.Report:
                 continue
             for w in ([["version", nv]], [1, ["version", nv]], [1, ["version", nv], 1], [["version", nv], 1, 2], [1, ["version", nv], ["version", v], 1]):
                 jobs += [(v, [list(k) for k in sub], w, "failed") for sub in subsets if len(sub) <= 2 or (len(sub) == 3 and KEYS[4] in sub)]
-    # the Transport contract is TransportError: also a plain TransportError and a transport's own subclass
-    jobs += [(versions[-1], [list(k) for k in sub], w, f) for f in ("plain", "custom") for sub in subsets if len(sub) <= 3 for w in wake_seqs if len(w) <= 2]
+    # the Transport contract is TransportError: also a plain TransportError, a transport's own subclass, an error without arguments
+    jobs += [(versions[-1], [list(k) for k in sub], w, f) for f in ("plain", "custom", "bare") for sub in subsets if len(sub) <= 3 for w in wake_seqs if len(w) <= 2]
+    # two commands that differ only in their command field
+    for v in versions:
+        for sub in ([TWINS[0], TWINS[1]], [TWINS[1], TWINS[0]], [TWINS[0], TWINS[1], KEYS[0]], [KEYS[4], TWINS[1], TWINS[0]]):
+            jobs += [(v, [list(k) for k in sub], w, "failed") for w in wake_seqs if len(w) <= 2]
     res = core.pmap(explore_case, jobs, ctx.workers)
     n_exec = sum(r[0] for r in res)
     n_faulty = sum(r[1] for r in res)
